@@ -127,6 +127,12 @@ def WL(a: ty.Any) -> ty.Any:
     return out
 
 
+@python.define
+def WLE(a: ty.Any) -> ty.Any:
+    _gate(f"e({_fmt(a)})")
+    return []
+
+
 @workflow.define
 def WSub1(a: ty.Any) -> ty.Any:
     p = workflow.add(WT1(a=a), name="p")
